@@ -198,6 +198,8 @@ func (cf *CloudflarePublisher) PublishECH(ctx context.Context, records []Target,
 			results = append(results, result)
 			continue
 		}
+		// Remember the new value: the same record may be listed again.
+		data[zoneName{r.Zone, r.Name}] = v
 		result.Code = StatusUpdated
 		results = append(results, result)
 	}
